@@ -184,6 +184,10 @@ func (g *typeGen) uses(loc string) []model.DirUse {
 		}
 		u := model.DirUse{Name: d.Name}
 		for _, a := range d.Args {
+			if !a.Type.NonNull && a.HasDefault && a.Default != nil && g.r.Intn(6) == 0 {
+				u.Args = append(u.Args, model.Arg{Name: a.Name, Value: nil}) // an explicit null is not the default
+				continue
+			}
 			if !a.Type.NonNull && g.r.Intn(2) == 0 {
 				continue
 			}
@@ -393,17 +397,30 @@ func TypeSchema(r *rand.Rand, o TypeOpts) *model.Schema {
 		}
 		it.Dirs = g.uses("INTERFACE")
 	}
-	// object fields: implement interfaces covariantly
+	// object fields: implement interfaces covariantly. The implements lists are fixed first so that a field typed by an
+	// interface or union can be narrowed to an object that implements / belongs to it.
 	for _, ot := range objs {
 		for _, it := range ifaces {
-			if r.Intn(2) != 0 {
-				continue
+			if r.Intn(2) == 0 {
+				ot.Interfaces = append(ot.Interfaces, it.Name)
 			}
-			ot.Interfaces = append(ot.Interfaces, it.Name)
+		}
+	}
+	s.Reindex()
+	for _, ot := range objs {
+		for _, in := range ot.Interfaces {
+			it := s.Type(in)
 			for _, fi := range it.Fields {
+				if ot.Field(fi.Name) != nil {
+					continue
+				}
 				f := &model.FieldDef{Name: fi.Name, Desc: Desc(r, o.NastyStrings), Type: fi.Type}
-				// covariance: T -> T!
-				if !fi.Type.NonNull && r.Intn(3) == 0 {
+				// covariance: T -> T!, or an abstract named type -> one of its possible object types
+				if k, known := s.KindOf(fi.Type.Base()); known && (k == model.Interface || k == model.Union) && !fi.Type.List && !fi.Type.NonNull && r.Intn(2) == 0 {
+					if pts := s.PossibleTypes(fi.Type.Name); len(pts) > 0 {
+						f.Type = model.Named(pts[r.Intn(len(pts))])
+					}
+				} else if !fi.Type.NonNull && r.Intn(3) == 0 {
 					f.Type = model.NonNullOf(fi.Type)
 				}
 				for _, a := range fi.Args {
